@@ -191,8 +191,14 @@ class Packet(_with_metaclass(bisturi.packet_builder.MetaPacket, object)):
         if not isinstance(other, self.__class__):
             return False
 
+        missing = object()
         for name, f, pack, _ in self.get_fields():
-            if getattr(self, name) != getattr(other, name):
+            mine = getattr(self, name, missing)
+            theirs = getattr(other, name, missing)
+            if mine is missing and theirs is missing:
+                continue  # placeholder (positioning, Em): holds no value
+
+            if mine is missing or theirs is missing or mine != theirs:
                 return False
 
         return True
@@ -208,7 +214,8 @@ class Packet(_with_metaclass(bisturi.packet_builder.MetaPacket, object)):
     def __repr__(self):
         msg = [f'{self.__class__.__name__}:']
         for name, f, _, _ in self.get_fields():
-            msg.append(f'  {name}: {getattr(self, name)}')
+            if hasattr(self, name):
+                msg.append(f'  {name}: {getattr(self, name)}')
 
         return '\n'.join(msg)
 
